@@ -38,10 +38,12 @@ func runC16(o opts) error {
 			scns = append(scns, c16.Exhaustive("LSHNWC", 0, 5, 8, []string{"hard"})...)
 			scns = append(scns, c16.Exhaustive("LSHNA", 1, 5, 6, []string{"rich", "hard"})...)   // with isolated accents
 			scns = append(scns, c16.Exhaustive("LSNOGW", 1, 5, 7, []string{"plain", "rich"})...) // with glue: opening punctuation, no-break space
+			scns = append(scns, c16.Exhaustive("LSHNDW", 1, 5, 6, all)...)                       // with digits: a hyphen and a digit stay together (LB25)
 		} else {
 			scns = append(scns, c16.Exhaustive("LMSHNWC", 0, 4, 7, all)...)
-			scns = append(scns, c16.Exhaustive("LSNA", 1, 4, 5, []string{"rich", "hard"})...)   // with isolated accents (cells are clusters)
+			scns = append(scns, c16.Exhaustive("LSNA", 1, 4, 5, []string{"rich", "hard"})...)  // with isolated accents (cells are clusters)
 			scns = append(scns, c16.Exhaustive("LSOG", 1, 4, 6, []string{"plain", "rich"})...) // with glue: opening punctuation, no-break space
+			scns = append(scns, c16.Exhaustive("LSHND", 1, 4, 4, all)...)                      // with digits: a hyphen and a digit stay together (LB25)
 		}
 		nrand := 900
 		if o.tier == "thorough" {
